@@ -18,7 +18,7 @@ REPO = os.environ.get("VERIF_REPO", "/repo")
 BUILD = os.path.join(VERIF, "build")
 COQ = os.path.join(VERIF, "coq")
 HARNESS = os.path.join(VERIF, "harness")
-NPROC = str(os.cpu_count() or 4)
+NPROC = os.environ.get("VERIF_JOBS") or str(os.cpu_count() or 4)
 
 GOENV = dict(os.environ, GOFLAGS="-mod=mod", GOPROXY="off", GOSUMDB="off", GOTOOLCHAIN="local",
              GONOSUMDB="*", GONOSUMCHECK="1", GOFLAGS_EXTRA="")
